@@ -234,10 +234,13 @@ impl ChangeTime for Metadata {
     fn changed(&self) -> std::io::Result<SystemTime> {
         let ctime_sec = self.ctime();
         let ctime_nsec = self.ctime_nsec() as u32;
+        // The nanoseconds count forward from the second, also before 1970:
+        // tv_sec = -2 with tv_nsec = 750000000 is 1.25 s before the epoch.
         let ctime = if ctime_sec >= 0 {
             UNIX_EPOCH + std::time::Duration::new(ctime_sec as u64, ctime_nsec)
         } else {
-            UNIX_EPOCH - std::time::Duration::new(-ctime_sec as u64, ctime_nsec)
+            UNIX_EPOCH - std::time::Duration::new(ctime_sec.unsigned_abs(), 0)
+                + std::time::Duration::new(0, ctime_nsec)
         };
         Ok(ctime)
     }
